@@ -47,3 +47,43 @@ def programs():
     for (n1, e1), (n2, e2) in itertools.combinations(EXPRS, 2):
         out.append(("gen_types/%s/%s" % (n1, n2), program(e1, e2), e1, e2))
     return out
+
+
+# ---- recursive types against their unfoldings, in tuples and unions of tuples (C09) -------------
+# The relation is coinductive: a pair of recursive types is assumed while it is being derived.
+# The shapes that stress that machinery are a recursive type against a one-step unfolding of it
+# (the back-reference sits in a nested union), with a variant present at one level and absent at
+# another, inside tuples whose alternatives make one derivation fail after another succeeded.
+REC_ALIASES = ("'r0 = Nil | Cons['int, ^],\n"
+               "'r1 = Nil | Cons['int, ^] | Bad,\n"
+               "'u00 = Nil | Cons['int, (Nil | Cons['int, ^])],\n"
+               "'u01 = Nil | Cons['int, (Nil | Cons['int, ^] | Bad)],\n"
+               "'u10 = Nil | Cons['int, (Nil | Cons['int, ^])] | Bad,\n"
+               "'u11 = Nil | Cons['int, (Nil | Cons['int, ^] | Bad)] | Bad,\n")
+REC_LT = ["'r0", "'r1", "'u00", "'u01", "'u10", "'u11"]
+REC_COMPONENTS = REC_LT + ["Cons['int, %s]" % t for t in REC_LT] + ["'int"]
+
+
+def rec_left_types():
+    return ["P[%s, %s]" % (x, y) for x in REC_COMPONENTS for y in REC_COMPONENTS]
+
+
+def rec_right_types():
+    tuples = rec_left_types()
+    out = []
+    for i in range(len(tuples)):
+        for j in range(i + 1, len(tuples)):
+            out.append("%s | %s" % (tuples[i], tuples[j]))
+    return out
+
+
+def rec_program(lefts, rights):
+    """one program whose value is [&a0, ..., &b0, ...]: function i has parameter type lefts[i] /
+    rights[i], which is how the types are found in the real table"""
+    lines = [REC_ALIASES]
+    for i, t in enumerate(lefts):
+        lines.append("a%d = #%s { 0 },\n" % (i, t))
+    for i, t in enumerate(rights):
+        lines.append("b%d = #(%s) { 0 },\n" % (i, t))
+    lines.append("[" + ", ".join(["&a%d" % i for i in range(len(lefts))] + ["&b%d" % i for i in range(len(rights))]) + "]")
+    return "".join(lines)
